@@ -41,6 +41,8 @@ def _deliver(segments, registry):
         await asyncio.sleep(0.1)
         rd = net.readers[net.opened[-1]]
         for seg in segments:
+            if rd.at_eof() or net.writers[net.opened[0]].closed:
+                break  # the client dropped the connection: the rest of the stream is lost
             rd.feed_data(seg)
             await asyncio.sleep(0.01)
         await asyncio.sleep(0.5)
